@@ -8,7 +8,8 @@ use serde_json::{json, Value};
 
 const RULE: &str = "sequences of 1-6 rule groups (one rule each) x generated words (incl. tones up to 4 digits on adjacent syllables, long segments, multi-node places): rules from the full-grammar generator, from the rules harvested from the test-suite and manual, and from templates biased to what restructures a word (deletion of segments / syllables / `$`, metathesis with `$`, insertion of `$`, `%` and structures, syllable substitution, tone merging through `$ > *`, node alphas, `[-place]`, `[±lab/cor/dor/phr]`); after EVERY group of every successful run the walker checks: >= 1 syllable, no empty syllable, tone has <= 4 digits and no 0 digit, root/laryngeal use only their 3 bits, place is never Some(0), no feature bits under an absent sub-node. Non-trivial = the sequence changed the word's shape (segment count, syllable count or a place value); distinct = distinct (rules, word).";
 
-pub const TEMPLATES: [&str; 51] = [
+pub const TEMPLATES: [&str; 55] = [
+    "* > ⟨ta:[tone: 214]⟩:[tone: 35] / a_#", "* > ⟨t:[tone: 51]a:[tone: 214]⟩ / #_", "a > ⟨o:[tone: 214]⟩:[tone: 35] / _#", "% > ⟨k:[tone: 12]a:[tone: 34]n⟩:[tone: 5]",
     "% > [tone: 30]", "V > [tone: 105]", "%:[tone: 5] > [tone: 10234]", "% > [tone: 050]", "* > ⟨ta⟩:[tone: 2040] / _#",
     "$ > *", "$ > * / _C", "$ > * / V_", "V > * / _#", "C > * / #_", "V > *", "C > *", "% > * / _#", "% > * / #_", "%:[-stress] > *",
     "$C > &", "C$ > &", "$V > &", "V$ > & / _C", "CV > &", "%% > &", "* > $ / V_C", "* > $ / C_C", "* > $ / _V", "* > % / V_", 
